@@ -52,7 +52,7 @@ func c20Concurrent(sc *C20Scenario, c *core.Ctx, codec compress.Codec) *core.Vio
 				S.Yield("pool", "get")
 			}
 		})
-	}, tasks)
+	}, tasks, nil)
 	parquet.VerifSetPoolYield(nil)
 	sc.Sched = res.Decisions
 	c.Inter = res.Inter
